@@ -76,6 +76,11 @@ def execute_case(pid, case, timeout=600):
     the next run, and a replay in a fresh process sees what the batch saw."""
     if os.environ.get("SIMCKL_NOFORK"):
         return execute_case_here(pid, case)
+    return fork_call(execute_case_here, (pid, case), timeout)
+
+
+def fork_call(fn, args=(), timeout=600):
+    """fn(*args) in a forked child; the result comes back pickled"""
     rfd, wfd = os.pipe()
     sys.stdout.flush()
     sys.stderr.flush()
@@ -85,7 +90,7 @@ def execute_case(pid, case, timeout=600):
         try:
             os.close(rfd)
             try:
-                data = pickle.dumps(("ok", execute_case_here(pid, case)))
+                data = pickle.dumps(("ok", fn(*args)))
             except HarnessError as e:
                 data = pickle.dumps(("harness", str(e)))
             except BaseException as e:   # noqa: BLE001
